@@ -397,13 +397,14 @@ def mangle_file_for_iso9660(orig, iso_level):
         basename = orig[:len(orig) - len(ext) - 1]
 
         # If the extension is empty, too long (> 3), or contains any illegal
-        # characters, we treat it as part of the basename instead
-        extlen = len(ext)
+        # characters, we treat it as part of the basename instead.  Note that
+        # uppercasing can change the length, so measure the uppercased version.
+        tmpext = ext.upper()
+        extlen = len(tmpext)
         if extlen == 0 or extlen > 3:
             valid_ext = ''
             basename = orig
         else:
-            tmpext = ext.upper()
             valid_ext, numsub = re.subn('[^A-Z0-9_]{1}', r'_', tmpext)
             if numsub > 0:
                 valid_ext = ''
@@ -411,7 +412,12 @@ def mangle_file_for_iso9660(orig, iso_level):
 
     # All right, now we have the basename of the file, and (optionally) an
     # extension.
-    return truncate_basename(basename, iso_level, False), valid_ext + ';1'
+    valid_base = truncate_basename(basename, iso_level, False)
+    if iso_level in (2, 3):
+        # At levels 2 and 3 the limit of 30 applies to the name and the
+        # extension together.
+        valid_base = valid_base[:30 - len(valid_ext)]
+    return valid_base, valid_ext + ';1'
 
 
 def mangle_dir_for_iso9660(orig, iso_level):
